@@ -36,6 +36,7 @@ func runC06(c *Ctx) {
 	L.Rule("R-C06-CLEAR", "Cache.Clear empties the cost accounting and the map together and only after the applier was stopped: a policy that keeps keys the map lost rejects their next Set as a duplicate", 3)
 	L.Rule("R-C06-REFUSALS", "lockedMap.Update/Set/get decline only for the documented reasons (absent key, conflict mismatch, shouldUpdate veto, nil item, elapsed TTL on reads): any other refusal makes a write vanish or a resident entry unreadable", 4)
 	L.Rule("R-C06-ADDSTORE", "admitted new item always reaches store.Set", 1)
+	L.Rule("R-C06-ARMS", "no ghost accounting entries: sampledLFU.add only on the admission path, policy Add/Update/Del each on its own applier arm and on every path of it (a key the policy still tracks after its delete is refused as a duplicate on its next Set)", 4)
 
 	// ---- R-C06-WAIT
 	waitRule(c, "R-C06-WAIT")
@@ -253,6 +254,8 @@ func runC06(c *Ctx) {
 	clearResetParts(c, "R-C06-CLEAR", "cache", "evict")
 
 	// ---- R-C06-REFUSALS
+	addersRule(c, "R-C06-ARMS")
+	applierArmsRule(c, "R-C06-ARMS")
 	refusalsRule(c, "R-C06-REFUSALS")
 	defaultUpdateRule(c, "R-C06-REFUSALS")
 
@@ -445,10 +448,14 @@ func waitRule(c *Ctx, ruleID string) {
 			}
 			return false
 		}
-		bad1, p1 := mustPass(after(mkc), isInstr(send), nil)
+		// from the entry: every path that is not the inert nil/closed return sends the marker (a
+		// shortcut such as "buffer looks empty, nothing to wait for" returns while the applier may
+		// still be applying the item it has just dequeued)
+		inert := cutSet(edgesWhere(fn, tb, "eq(p[0],c[nil])", nil, true), edgesWhere(fn, tb, "call[atomic.Bool.Load](addr(fld[isClosed](p[0])))", nil, true))
+		bad1, p1 := mustPass(entryPos(fn), isInstr(send), inert)
 		bad2, p2 := mustPass(after(send), isRecv, nil)
 		if bad1 != nil {
-			L.Fail(ruleID, "Cache.Wait#send", "a path returns without sending the marker (block path "+pathString(p1)+")", instrPos(bad1))
+			L.Fail(ruleID, "Cache.Wait#send", "a path past the nil/closed guard returns without sending the marker (block path "+pathString(p1)+")", instrPos(bad1))
 		} else if bad2 != nil {
 			L.Fail(ruleID, "Cache.Wait#recv", "Wait can return without receiving on its marker channel (block path "+pathString(p2)+")", instrPos(bad2))
 		} else {
@@ -513,7 +520,7 @@ func defaultUpdateRule(c *Ctx, ruleID string) {
 // documented refusal edges (absent key, conflict mismatch, shouldUpdate veto, nil item, and — for
 // reads only — an elapsed TTL). A refusal for any other reason makes a write vanish (the policy
 // still knows the key, so the buffered re-Set bounces as a duplicate) or hides a resident entry.
-func refusalsRule(c *Ctx, ruleID string) {
+func refusalsRule(c *Ctx, ruleID string, only ...string) {
 	L, P := c.L, c.P
 	type lm struct {
 		name, keyPat, incPat string
@@ -527,6 +534,15 @@ func refusalsRule(c *Ctx, ruleID string) {
 		{"Update", "fld[Key](p[1])", "fld[Conflict](p[1])", 1, "c[false]"},
 	} {
 		f := f
+		if len(only) > 0 {
+			want := false
+			for _, o := range only {
+				want = want || o == f.name
+			}
+			if !want {
+				continue
+			}
+		}
 		c.Group(ruleID, "lockedMap."+f.name, func() {
 			fn := P.Fn("ristretto", "lockedMap", f.name)
 			L.Analysed(fname(fn))
